@@ -1,7 +1,7 @@
 (** C18: models of the remaining unordered-collection sites in converter.py / translate.py and their
     order-independence.  (Strings are [list N] as in MM15/Codec.v.) *)
 From Coq Require Import NArith List Bool Permutation Sorted Lia.
-From Pi2 Require Import MM15.Codec MM15.CodecProofs.
+From Pi2 Require Import MM15.Codec MM15.CodecProofs Det.ConverterModel.
 Import ListNotations.
 Open Scope N_scope.
 
@@ -11,8 +11,6 @@ Open Scope N_scope.
       [set(...)], [len(...)], or membership *)
 
 (** [get_metavars_in_order]: [tuple(m for m in self._floating_patterns if m in set(axiom.metavars))] *)
-Definition metavars_in_order (floating : list str) (metavars : list str) : list str :=
-  filter (fun m => mem_str m metavars) floating.
 
 Lemma metavars_in_order_perm : forall floating mv mv', Permutation mv mv' ->
   metavars_in_order floating mv = metavars_in_order floating mv'.
@@ -34,12 +32,6 @@ Proof. intros. apply mem_str_perm. apply Permutation_app; assumption. Qed.
 (** * [tuple(sorted({...}))] (converter.py _make_axiom_from_notation/_make_lemma_from_notation):
       Python compares [str] by code points, lexicographically *)
 
-Fixpoint str_leb (a b : str) : bool :=
-  match a, b with
-  | [], _ => true
-  | _ :: _, [] => false
-  | x :: a', y :: b' => if x <? y then true else if y <? x then false else str_leb a' b'
-  end.
 
 Lemma str_leb_total a : forall b, str_leb a b = true \/ str_leb b a = true.
 Proof.
@@ -73,12 +65,6 @@ Proof.
     apply (IH b c); assumption.
 Qed.
 
-Fixpoint insert_str (x : str) (l : list str) : list str :=
-  match l with
-  | [] => [x]
-  | y :: r => if str_leb x y then x :: y :: r else y :: insert_str x r
-  end.
-Definition sort_str (l : list str) : list str := fold_right insert_str [] l.
 
 Definition sle (a b : str) : Prop := str_leb a b = true.
 
@@ -135,8 +121,6 @@ Qed.
 (* ------------------------------------------------------------------------------------------ *)
 (** * [for file in output_dir.glob('*.mm'): file.unlink()] (translate.py main): deleting a set of files *)
 
-Definition unlink (f : str) (fs : list str) : list str := filter (fun g => negb (str_eqb f g)) fs.
-Definition unlink_all (files fs : list str) : list str := fold_left (fun acc f => unlink f acc) files fs.
 
 Lemma unlink_comm a b fs : unlink a (unlink b fs) = unlink b (unlink a fs).
 Proof.
